@@ -56,6 +56,8 @@ func genHost(L int, allowV6 bool) (string, bool) {
 func genPort() string {
 	p := rt.Dec("port", 5)
 	rt.Assume(p != "0")
+	n, _ := strconv.Atoi(p)
+	rt.Assume(n <= 65535)
 	return p
 }
 
